@@ -95,7 +95,7 @@ func (c *WSClient) Start() *Exchange {
 	h.Set("Upgrade", "websocket")
 	h.Set("Sec-WebSocket-Version", "13")
 	h.Set("Sec-WebSocket-Key", "dGhlIHNhbXBsZSBub25jZQ==")
-	if c.OfferDeflate {
+	if c.OfferDeflate || c.W.WSOfferDeflate {
 		h.Set("Sec-WebSocket-Extensions", "permessage-deflate; client_max_window_bits")
 	}
 	spec.Header = h
@@ -332,6 +332,32 @@ func (c *WSClient) SendFrame(op byte, fin bool, payload []byte) error {
 func (c *WSClient) SendPacket(p Pkt, frags []int) error {
 	fr := encPacketFrame(c.O.Rev, c.O.B64, p)
 	return c.SendMessage(fr, frags)
+}
+
+// Negotiated reports whether the server accepted permessage-deflate for this connection.
+func (c *WSClient) Negotiated() bool { return c.negotiated }
+
+// SendPacketDeflated sends one packet as one compressed message (RFC 7692: the payload is a raw DEFLATE stream
+// without its final 00 00 ff ff, RSV1 set on the first frame). Only meaningful when the extension was negotiated.
+func (c *WSClient) SendPacketDeflated(p Pkt) error {
+	_, err := c.SendPacketDeflatedN(p)
+	return err
+}
+
+// SendPacketDeflatedN also reports the number of payload bytes on the wire.
+func (c *WSClient) SendPacketDeflatedN(p Pkt) (int, error) {
+	fr := encPacketFrame(c.O.Rev, c.O.B64, p)
+	op := byte(opText)
+	if fr.Binary {
+		op = opBinary
+	}
+	var buf bytes.Buffer
+	fw, _ := flate.NewWriter(&buf, flate.BestCompression)
+	fw.Write(fr.Data)
+	fw.Flush()
+	comp := buf.Bytes()
+	comp = comp[:len(comp)-4]
+	return len(comp), c.SendRaw(buildWSFrame(op, true, true, comp, true, c.MaskKey, 0))
 }
 
 func (c *WSClient) SendMessage(fr Frame, frags []int) error {
